@@ -202,13 +202,16 @@ def bs_case(rep, drv, rng, th):
 				 py={'avg': avg, 'se': se, 'analytical': ana}, oracle=bool(bad), theorem=THEOREM if not diffs else None)
 
 
-def ss_case(rep, drv, rng, th):
+def ss_case(rep, drv, rng, th, neg=False):
 	from stockpyl import ss
 	kind, par = gen_demand(rng)
 	q1 = one_period_pmf(kind, par)
 	mu = float(sum(k * v for k, v in enumerate(q1)))
 	h = rng.choice([1, 2, 0.5]); p = rng.choice([4, 10, 2.5]); K = rng.choice([0.5, 5, 20, 2.5])
 	s = int(max(0, round(mu + rng.choice([-2, 0, 1, 3]))))
+	if neg:
+		# a NEGATIVE reorder point (order only once a backlog of 2 or 3 units has built up): legal, and optimal when stockouts are cheap and orders dear
+		s = -rng.choice([2, 3]); p = rng.choice([2.5, 3]); K = rng.choice([20, 40]); rep.count('ss:negative-reorder-point')
 	S = s + rng.randint(1, int(3 * mu) + 3)
 	T = (12000 if th else 3000)
 	seed = rng.randrange(1, 10 ** 6)
@@ -479,7 +482,7 @@ def run(rep, drv):
 	for k in range(60 if th else 14):
 		bs_case(rep, drv, rng, th)
 	for k in range(40 if th else 8):
-		ss_case(rep, drv, rng, th)
+		ss_case(rep, drv, rng, th, neg=(k % 3 == 0))
 	for k in range(12 if th else 4):
 		serial_case(rep, drv, rng, th, no_transit=(k % 2 == 1), overstock=(k % 4 == 0), stale=(k % 2 == 0))
 
